@@ -22,8 +22,12 @@ PASSPHRASE2 = 'pässwörd 密碼'
 def set_s2k_count(coded):
     """Configuration knob: PGPy takes the coded S2K count for new packets from HashAlgorithm.<x>.tuned_count."""
     from pgpy.constants import HashAlgorithm
+    from mc.adapt import HarnessBinding
     for h in HashAlgorithm:
         h._tuned_count = coded
+        # the documented read side of the knob must show the value, or the knob has moved (S2K would run at full cost and only time out)
+        if getattr(h, 'tuned_count', None) != coded:
+            raise HarnessBinding('harness binding is stale: setting HashAlgorithm.%s._tuned_count does not change tuned_count' % h.name)
 
 
 @functools.lru_cache(maxsize=None)
